@@ -499,3 +499,46 @@ func TestFixedC18UpdateOfUnknownRow(t *testing.T) {
 	defer ecancel()
 	_ = c.Echo(ectx)
 }
+
+// TestFixedC18EndpointListRace (run with -race): when the connection of a reconnecting
+// client is lost, the disconnect handler released the client lock and then read the
+// endpoint list for a log line, while a Connect call of the application rewrites that
+// list under the lock (found by TestC18Concurrent on a busy machine, about one shard run
+// in fifteen). The pause point disconnect:unlocked parks the handler right after it
+// released the lock, Connect runs, the handler goes on.
+func TestFixedC18EndpointListRace(t *testing.T) {
+	e := newL2Env(t, c16World(t))
+	px, err := kit.StartProxy(e.srv.Sock)
+	if err != nil {
+		t.Fatal(err)
+	}
+	defer px.Close()
+	c, _ := kit.NewClient(e.w, px.Endpoint(), client.WithReconnect(2*time.Second, backoff.NewConstantBackOff(50*time.Millisecond)))
+	if err := c.Connect(context.Background()); err != nil {
+		t.Fatal(err)
+	}
+	defer c.Close()
+	// the handler is held back by a plain sleep: releasing it through a channel would order
+	// the two accesses for the race detector
+	parked := make(chan struct{})
+	var once sync.Once
+	client.SetVerifHook(func(cl client.Client, point string) {
+		if cl == c && point == "disconnect:unlocked" {
+			once.Do(func() { close(parked); time.Sleep(400 * time.Millisecond) })
+		}
+	})
+	defer client.SetVerifHook(nil)
+	px.CutAll()
+	select {
+	case <-parked:
+	case <-time.After(10 * time.Second):
+		t.Fatal("harness: pause point disconnect:unlocked not reached")
+	}
+	ctx, cancel := context.WithTimeout(context.Background(), 5*time.Second)
+	err = c.Connect(ctx)
+	cancel()
+	if err != nil {
+		t.Fatalf("harness: Connect while the disconnect handler is held back: %v", err)
+	}
+	time.Sleep(600 * time.Millisecond)
+}
